@@ -169,7 +169,8 @@ FamilyOf(route) ==
 
 (* ---------------- (3) loop expansions with one spanning cluster --------- *)
 \* regions handed to gen_region_counts: the base region r0 (the sites of `where`) and the supplied
-\* cluster.  C(region) = 1 - sum of the counts of its strict supersets.
+\* cluster.  C(region) = 1 - sum of the counts of its strict supersets; a region with count 0 is
+\* pruned (autoprune), i.e. contributes e^0 = 1 to a product and 0 * e to a sum.
 CountSpan == 1
 CountR0(r0IsSpan) == IF r0IsSpan THEN 0 ELSE 1 - CountSpan    \* r0 = span is one region, counted once
 GPow01(x, c) == IF c = 0 THEN GOne ELSE x
